@@ -9,7 +9,7 @@ use std::fs;
 use std::io::{BufRead, BufReader, Write};
 
 use packing::traits::*;
-use packing::{LineShape, MolecularShape2};
+use packing::{Cell2, LineShape, MolecularShape2, PackedState};
 use serde_json::{json, Value};
 
 /// Area of a union of discs: 1/2 * contour integral of (x dy - y dx) over the arcs of each
@@ -189,13 +189,86 @@ pub fn areas(input: &str, out: &str) {
     radials.push(vec![0.8, 1., 0.8, 1.]);
     radials.push(vec![1., 0.9, 0.8, 0.9, 1., 0.9]);
     radials.push(vec![2., 1.5, 2., 1.5, 2., 1.5, 2., 1.5]);
+    // points that lie exactly on the chord between their neighbours (redundant vertices), a
+    // vertex at the centre, alternating long and short radii
+    radials.push(vec![1., 0.5, 1., 1., 1., 1.]);
+    radials.push(vec![1., 0., 1., 1.]);
+    let c45 = (PI / 4.).cos();
+    radials.push(vec![1., c45, 1., c45, 1., c45, 1., c45]);
+    radials.push(vec![1., 0.5, 1., 0.5, 1., 0.5]);
+    radials.push(vec![2., 1., 2., 2., 2., 1., 2., 2., 2., 2., 2., 2.]);
+    radials.push(vec![0.2, 5., 0.2, 5.]);
+    radials.push(vec![1., 2., 3., 4.]);
     for rad in radials {
         if let Ok(shape) = LineShape::from_radial("poly", rad.clone()) {
             polys += 1;
+            // the outline that was asked for: point k at angle 2 pi k / n and distance rad[k]
+            let n = rad.len();
+            let req: Vec<(f64, f64)> = (0..n)
+                .map(|k| {
+                    let a = 2. * PI * k as f64 / n as f64;
+                    (rad[k] * a.cos(), rad[k] * a.sin())
+                })
+                .collect();
+            let mut asked = 0.;
+            for i in 0..n {
+                let (x1, y1) = req[i];
+                let (x2, y2) = req[(i + 1) % n];
+                asked += x1 * y2 - x2 * y1;
+            }
+            let asked = asked.abs() / 2.;
             let (got, exp) = (shape.area(), shoelace(&shape));
-            if !((got - exp).abs() <= 1e-12 * exp.max(1.)) {
+            if !((got - exp).abs() <= 1e-12 * exp.max(1.)) || !((got - asked).abs() <= 1e-12 * asked.max(1.)) {
                 failures.push(json!({"what": "polygon area differs from the shoelace area of its vertices",
-                    "state": {"radial": rad}, "observed": {"area": got, "shoelace": exp}}));
+                    "state": {"radial": rad}, "observed": {"area": got, "shoelace_of_items": exp, "shoelace_of_requested_outline": asked}}));
+            }
+        }
+    }
+    // The score is a function of the state as it is now: a state whose public `shape` or `cell`
+    // field is replaced after it has been scored reports the packing fraction of the new contents.
+    let mut reuse = 0usize;
+    for gname in ["p1", "p2", "p2gg", "p1m1"].iter() {
+        let g = crate::suites::group(gname);
+        let seq: Vec<LineShape> = vec![
+            LineShape::polygon(6).unwrap(),
+            LineShape::polygon(4).unwrap(),
+            LineShape::polygon(3).unwrap(),
+            LineShape::from_radial("kite", vec![1., 0.5, 1., 0.5]).unwrap(),
+        ];
+        if let Ok(mut st) = PackedState::from_group(seq[0].clone(), &g) {
+            let copies = st.relative_positions().count() as f64;
+            for (k, sh) in seq.iter().enumerate() {
+                st.shape = sh.clone();
+                if k == 2 {
+                    // a larger cell of the same family
+                    let mut j = serde_json::to_value(&st.cell).unwrap();
+                    j["length"] = json!(j["length"].as_f64().unwrap() * 1.5);
+                    st.cell = serde_json::from_value::<Cell2>(j).unwrap();
+                }
+                reuse += 1;
+                let want = copies * sh.area() / st.cell.area();
+                match st.score() {
+                    Some(s) if (s - want).abs() <= 1e-12 * want => {}
+                    other => failures.push(json!({"what": "a state whose shape or cell was replaced after scoring does not report the packing fraction of its present contents",
+                        "state": {"group": gname, "step": k}, "observed": {"score": other, "expected": want}})),
+                }
+            }
+        }
+        let tseq: Vec<MolecularShape2> = [0.9, 0.637556, 0.5, 0.3]
+            .iter()
+            .map(|r| MolecularShape2::from_trimer(*r, 180., 2.))
+            .collect();
+        if let Ok(mut st) = PackedState::from_group(tseq[0].clone(), &g) {
+            let copies = st.relative_positions().count() as f64;
+            for (k, sh) in tseq.iter().enumerate() {
+                st.shape = sh.clone();
+                reuse += 1;
+                let want = copies * sh.area() / st.cell.area();
+                match st.score() {
+                    Some(s) if (s - want).abs() <= 1e-12 * want => {}
+                    other => failures.push(json!({"what": "a state whose shape or cell was replaced after scoring does not report the packing fraction of its present contents",
+                        "state": {"group": gname, "trimer_radius_step": k}, "observed": {"score": other, "expected": want}})),
+                }
             }
         }
     }
@@ -203,7 +276,7 @@ pub fn areas(input: &str, out: &str) {
     failures.sort_by_key(|f| f["what"].as_str().map(|w| w.contains("triple overlap")).unwrap_or(false));
     let res = json!({"checked": checked, "exact_cases": exact_cases, "lens_cases": lens_cases,
         "triple_overlap_cases": triple_cases, "oracle_disagrees_with_tlc": oracle_bad,
-        "polygons": polys, "failures": failures.len(),
+        "polygons": polys, "state_reuse_scores": reuse, "failures": failures.len(),
         "first_failures": failures.iter().take(60).collect::<Vec<_>>()});
     let mut fo = fs::File::create(out).expect("out");
     writeln!(fo, "{}", res).unwrap();
